@@ -179,7 +179,13 @@ var fileMu sync.Mutex
 // Solve races the installed solvers on the query. The first definite answer
 // (unsat or sat) wins.
 func Solve(q *Query, secs int, only ...string) Result {
-	if nq, back, ok := OrderAbstract(q); ok && len(back) > 0 {
+	plainValues := true
+	for _, v := range q.Values {
+		if v.Op != "var" {
+			plainValues = false
+		}
+	}
+	if nq, back, ok := OrderAbstract(q); ok && len(back) > 0 && plainValues {
 		r := solveRaw(nq, secs, only...)
 		if r.Status == "sat" {
 			m := map[int]*Term{}
